@@ -165,7 +165,10 @@ CLAIMED = {
             "members and nesting, allocate / PossDup / SequenceReset / raw sequence-number modes): same type, body fields "
             "in order, group structure, whole frame consumed, raw bytes unchanged, CompIDs and MsgSeqNum. Deductive core: "
             "the framing contract of Codec.encode (any set of body fields; ASCII text) as in C02 - the BodyLength / "
-            "CheckSum consistency the decoder's frame cut relies on. One genuine defect repaired (fix: c8894fd a value "
+            "CheckSum consistency the decoder's frame cut relies on - and the sequence-number contract of the real encode "
+            "as in C05 (the header carries the allocated number and the counter moves by one, or the number the message "
+            "carries for PossDupFlag=Y / SequenceReset / raw mode and the counter stays; CompIDs of the session). One "
+            "genuine defect repaired (fix: c8894fd a value "
             "containing '8=FIX.' cut the frame).",
             "DESIGN.md 4/C01 and 9",
             "level exploration: decode is outside the subset the verifier executes; premise of well-formedness (members in "
